@@ -120,6 +120,17 @@ theorem no_due_timer_left (fuel : Nat) (st : St) (now : TV) (q : QInv st)
 example : ((timerLoopPopT 10 (runOps .repaired [.beh ⟨0, 0, [.timerAt 1 999 0 0]⟩, .act (.timer 0 0 0)]) ⟨1000, 0⟩).2.map (·.slot))
     = [0, 1] := by decide +kernel
 
+/-! ### deferred callbacks -/
+
+/-- The batch of deferred callbacks queued when the iteration began (`later = t->laters; t->laters = NULL`):
+    when the loop over it returns normally every one of them has been invoked exactly once, in queue
+    order (each with FIRE|UNBIND: `laterCb`), whatever they and the timers before them did. -/
+theorem deferred_batch_runs_once_in_order (l : List Nat) (st : St) (hok : (laterLoopT st l).1.status = .ok) :
+    (laterLoopT st l).2 = l := laterLoopT_all l st hok
+
+example : (laterLoopT { runOps .shipped [.act (.later 0 0), .act (.later 1 1), .act (.later 2 0)] with laters := [] } [3, 2, 4]).2
+    = [3, 2, 4] := by decide +kernel
+
 /-! ### cancel -/
 
 /-- `tickit_watch_cancel` of a queued timer or deferred callback: it leaves its list, is freed, and gets
